@@ -129,8 +129,6 @@ def _delay(when: dawgie.EVENT) -> datetime.timedelta:
     if when.moment.boot is not None:
         if when in booted:
             raise _DelayNotKnowableError()
-
-        booted.append(when)
     else:
         if when.moment.day is not None:
             then = datetime.datetime(
@@ -318,6 +316,8 @@ def defer():
                 ts = _delay(p).total_seconds()
 
                 if ts <= 300.0:
+                    if p.moment.boot is not None:
+                        booted.append(p)
                     if _is_asp(t):
                         t.get('todo').add('__all__')
                     else:
